@@ -1,6 +1,7 @@
 use crate::core::Cx;
 
 pub mod c06;
+pub mod c07;
 pub mod c08;
 pub mod c09;
 pub mod c12;
@@ -16,6 +17,7 @@ pub mod c20;
 pub fn run(id: &str, cx: &mut Cx) -> bool {
     match id {
         "C06" => c06::run(cx),
+        "C07" => c07::run(cx),
         "C08" => c08::run(cx),
         "C09" => c09::run(cx),
         "C12" => c12::run(cx),
